@@ -588,6 +588,19 @@ def mon_card(ctx):
     v = card_reports(ctx.U, ctx.post)
     if v:
         return v
+    if ctx.name == "restart" and not ctx.raised and "cards_before" in (ctx.outcome[1] or {}):
+        # clean, save, load, finalize: the cardinality of everything that is there again
+        # afterwards - in the loaded document and in the original, resolved again - is the one
+        # it had before
+        out = ctx.outcome[1]
+        for where in ("cards_after", "cards_original"):
+            for key, val in sorted(out["cards_before"].items()):
+                if key in out[where] and out[where][key] != val:
+                    return ("card.persisted", "%s: cardinalities %r before clean / save / load / "
+                            "finalize through %s, %r afterwards (%s)" %
+                            (key, val, ctx.op.get("backend"), out[where][key],
+                             "loaded document" if where == "cards_after" else "original, resolved again"))
+        return None
     if ctx.name == "restart" and not ctx.raised:
         new = ctx.U.objs[ctx.outcome[1]["new"]]
         old = ctx.args["d"]
